@@ -973,6 +973,9 @@ def remap_by_types(
             elif ((dc := self.lookup_type(t_node.value)) is not None) and is_dataclass(dc):
                 dc_types = get_type_hints(dc)
                 if node.attr not in dc_types:
+                    if hasattr(dc, node.attr):
+                        # Not a field: a method or property of a user's dataclass
+                        return t_node
                     raise ValueError(f"Key {node.attr} not found in dataclass/dictionary {dc}")
                 self._found_types[node] = dc_types[node.attr]
             return t_node
